@@ -212,7 +212,7 @@ CHECKS = {
               "cache-file entry points; finiteness on random valid inputs (e to 0.99, periods 0.5 d .. 1e4 d)."
               ' Off the lattice the specification is carried by a floating-point transcription of Gauss.tla (harness/gauss_oracle.py, its own Kepler solver) that TLC certifies on every lattice configuration (monitor family H) and that is then the oracle for seeded random real-valued problems (2-27 epochs, e to 0.99, poly_trend 1..3, offsets, means, jitter, caps, random units; quick 60, thorough 1500; tolerance 1e-6 relative).'),
         design_ref="DESIGN.md section 3 C01, 2.5",
-        note=("Exhaustive on the lattice only (Keplerian phases 0 and pi, e in {0, 0.6, 0.8}, P in {2, 4} d); off the lattice agreement with "
+        note=("Open finding KF_IllConditionedB: with long baselines x wide trend priors x small errors (condition number of B beyond 1e8) the kernel's value is off by far more than round-off against exact rational arithmetic; reported as KNOWN-FINDING, a deviation on a better-conditioned problem is a violation. The few-epoch corner (fewer epochs than broad linear parameters) is checked against exact rational arithmetic too and holds since fix dc43793. Exhaustive on the lattice only (Keplerian phases 0 and pi, e in {0, 0.6, 0.8}, P in {2, 4} d); off the lattice agreement with "
               "the closed form is explored on seeded random problems inside the input classes no known finding touches, not decided for "
               "every real input. Trusted: TLC, numpy slogdet/solve for the density of a given Gaussian, twobody's Kepler solver. "
               "Multi-survey lattice cases are time-disjoint in list order (C08's open finding). The kernel findings of earlier sessions "
